@@ -5,14 +5,30 @@ the bundled pyaes and for the registered adapter."""
 # ---- GF(2^8), polynomial x^8+x^4+x^3+x+1 ------------------------------------------------
 
 
+def sel(bit, v):
+    """v if bit else 0 -- branch-free on symbolic bits (pyvc proxies), plain on ints"""
+    if isinstance(bit, int):
+        return v if bit else 0
+    from pyvc import core
+    return core.Ite(bit != 0, v, 0, bv=isinstance(bit, core.SBV))
+
+
 def xtime(a):
-    a <<= 1
-    if a & 0x100:
-        a ^= 0x11B
-    return a & 0xFF
+    return ((a << 1) & 0xFF) ^ sel((a >> 7) & 1, 0x1B)
 
 
 def gmul(a, b):
+    """a * b in GF(2^8); b is a constant (the MixColumns coefficients) or an int"""
+    r = 0
+    for _ in range(8):
+        if b & 1:
+            r = r ^ a
+        a = xtime(a)
+        b >>= 1
+    return r
+
+
+def gmul_int(a, b):
     r = 0
     for _ in range(8):
         if b & 1:
@@ -28,7 +44,7 @@ def ginv(a):
     # a^254
     r = 1
     for _ in range(254):
-        r = gmul(r, a)
+        r = gmul_int(r, a)
     return r
 
 
@@ -45,6 +61,17 @@ SBOX = [_affine(ginv(x)) for x in range(256)]
 INV_SBOX = [0] * 256
 for _i, _v in enumerate(SBOX):
     INV_SBOX[_v] = _i
+
+
+SYM_SBOX = [None, None]      # installed by the proof harness: symbolic S / Si (uninterpreted)
+
+
+def sbox(b):
+    return SBOX[b] if isinstance(b, int) else SYM_SBOX[0](b)
+
+
+def inv_sbox(b):
+    return INV_SBOX[b] if isinstance(b, int) else SYM_SBOX[1](b)
 
 
 def rcon(i):
@@ -66,10 +93,10 @@ def key_expansion(key):
         t = list(w[i - 1])
         if i % nk == 0:
             t = t[1:] + t[:1]
-            t = [SBOX[b] for b in t]
+            t = [sbox(b) for b in t]
             t[0] ^= rcon(i // nk)
         elif nk > 6 and i % nk == 4:
-            t = [SBOX[b] for b in t]
+            t = [sbox(b) for b in t]
         w.append([a ^ b for a, b in zip(w[i - nk], t)])
     return w, nr
 
@@ -79,7 +106,7 @@ def _add_round_key(s, w, r):
 
 
 def _sub_bytes(s, box):
-    return [box[b] for b in s]
+    return [box(b) for b in s]
 
 
 def _shift_rows(s):
@@ -96,37 +123,89 @@ def _mix_columns(s, m):
     for c in range(4):
         col = s[4 * c:4 * c + 4]
         for r in range(4):
-            out.append(gmul(m[0], col[r]) ^ gmul(m[1], col[(r + 1) % 4])
-                       ^ gmul(m[2], col[(r + 2) % 4]) ^ gmul(m[3], col[(r + 3) % 4]))
+            out.append(gmul(col[r], m[0]) ^ gmul(col[(r + 1) % 4], m[1])
+                       ^ gmul(col[(r + 2) % 4], m[2]) ^ gmul(col[(r + 3) % 4], m[3]))
     return out
+
+
+def round_enc(s, w, r):
+    s = _sub_bytes(s, sbox)
+    s = _shift_rows(s)
+    s = _mix_columns(s, (2, 3, 1, 1))
+    return _add_round_key(s, w, r)
+
+
+def final_enc(s, w, nr):
+    s = _sub_bytes(s, sbox)
+    s = _shift_rows(s)
+    return _add_round_key(s, w, nr)
+
+
+def encrypt_block_w(w, nr, block):
+    """Cipher (FIPS-197 5.1) with a given key schedule w (list of 4-byte words)"""
+    s = _add_round_key(list(block), w, 0)
+    for r in range(1, nr):
+        s = round_enc(s, w, r)
+    return final_enc(s, w, nr)
 
 
 def encrypt_block(key, block):
     w, nr = key_expansion(key)
-    s = _add_round_key(list(block), w, 0)
-    for r in range(1, nr):
-        s = _sub_bytes(s, SBOX)
-        s = _shift_rows(s)
-        s = _mix_columns(s, (2, 3, 1, 1))
-        s = _add_round_key(s, w, r)
-    s = _sub_bytes(s, SBOX)
-    s = _shift_rows(s)
-    s = _add_round_key(s, w, nr)
-    return bytes(s)
+    return bytes(encrypt_block_w(w, nr, block))
+
+
+def round_inv(s, w, r):
+    s = _inv_shift_rows(s)
+    s = _sub_bytes(s, inv_sbox)
+    s = _add_round_key(s, w, r)
+    return _mix_columns(s, (14, 11, 13, 9))
+
+
+def decrypt_block_w(w, nr, block):
+    """InvCipher (FIPS-197 5.3)"""
+    s = _add_round_key(list(block), w, nr)
+    for r in range(nr - 1, 0, -1):
+        s = round_inv(s, w, r)
+    s = _inv_shift_rows(s)
+    s = _sub_bytes(s, inv_sbox)
+    return _add_round_key(s, w, 0)
 
 
 def decrypt_block(key, block):
     w, nr = key_expansion(key)
-    s = _add_round_key(list(block), w, nr)
-    for r in range(nr - 1, 0, -1):
-        s = _inv_shift_rows(s)
-        s = _sub_bytes(s, INV_SBOX)
-        s = _add_round_key(s, w, r)
-        s = _mix_columns(s, (14, 11, 13, 9))
+    return bytes(decrypt_block_w(w, nr, block))
+
+
+# Equivalent Inverse Cipher (FIPS-197 5.3.5): round keys dw with InvMixColumns applied to rounds 1..nr-1
+def eq_inv_keys(w, nr):
+    dw = [None] * (4 * (nr + 1))
+    for r in range(nr + 1):
+        for c in range(4):
+            word = w[4 * (nr - r) + c]
+            if 0 < r < nr:
+                word = _mix_columns(list(word) + [0] * 12, (14, 11, 13, 9))[:4]
+            dw[4 * r + c] = list(word)
+    return dw
+
+
+def round_eqinv(s, dw, r):
+    s = _sub_bytes(s, inv_sbox)
     s = _inv_shift_rows(s)
-    s = _sub_bytes(s, INV_SBOX)
-    s = _add_round_key(s, w, 0)
-    return bytes(s)
+    s = _mix_columns(s, (14, 11, 13, 9))
+    return _add_round_key(s, dw, r)
+
+
+def final_eqinv(s, dw, nr):
+    s = _sub_bytes(s, inv_sbox)
+    s = _inv_shift_rows(s)
+    return _add_round_key(s, dw, nr)
+
+
+def eq_inv_cipher_w(dw, nr, block):
+    s = _add_round_key(list(block), dw, 0)
+    for r in range(1, nr):
+        s = round_eqinv(s, dw, r)
+    return final_eqinv(s, dw, nr)
 
 
 # ---- SP 800-38A modes -------------------------------------------------------------------
@@ -218,6 +297,11 @@ def selfcheck():
     assert encrypt_block(h("000102030405060708090a0b0c0d0e0f101112131415161718191a1b1c1d1e1f"), pt) == \
         h("8ea2b7ca516745bfeafc49904b496089")
     assert decrypt_block(h("000102030405060708090a0b0c0d0e0f"), h("69c4e0d86a7b0430d8cdb78070b4c55a")) == pt
+    for kk in (h("000102030405060708090a0b0c0d0e0f"), h("000102030405060708090a0b0c0d0e0f1011121314151617"),
+               h("000102030405060708090a0b0c0d0e0f101112131415161718191a1b1c1d1e1f")):
+        w, nr = key_expansion(kk)
+        ct = encrypt_block(kk, pt)
+        assert bytes(eq_inv_cipher_w(eq_inv_keys(w, nr), nr, ct)) == pt == decrypt_block(kk, ct)
     # FIPS-197 Appendix B
     assert encrypt_block(h("2b7e151628aed2a6abf7158809cf4f3c"), h("3243f6a8885a308d313198a2e0370734")) == \
         h("3925841d02dc09fbdc118597196a0b32")
